@@ -94,14 +94,41 @@ Print Assumptions C02_engine_sound.
    extractor regexes on the text at hand, which the harness checks on every recorded call / token ---- *)
 From EV Require Import Model.Extract Model.E2E Model.RefEngine Model.E2EClosed Proofs.ClosedProofs Proofs.ClosedCorollaries.
 
+(* premises left: the short-form page suffix (extractor regexes), and of the contract search_ok only its two
+   clauses that are not (yet) decided by a kernel-run analysis of the ASTs: `$`-anchored backward matches end at the
+   window end (the engine theorem gives "or just before a final newline"), and the parenthetical is the last group
+   of the post-citation match.  Everything else -- match-object well-formedness, forward matches start at 0, the
+   pin-cite group starts at 0, the short-form antecedent is always captured, POST_SHORT always matches -- is proved
+   for the engine on the regenerated ASTs (Proofs/SearchDischarge.v: soundness of the engine w.r.t. a declarative
+   semantics WITH captures, Regex/DeclCap.v, and verified static analyses run by the kernel) *)
+From EV Require Import Proofs.SearchDischarge.
+
 Theorem C02_closed_offsets : forall this_year s ra l,
-  s <> s_eyecite -> short_page_ok s ->
-  search_ok (engine_search Gen.Unicode.U meta_table) ->
-  (forall w, engine_search Gen.Unicode.U meta_table PPostShort w <> None) ->
+  s <> s_eyecite -> short_page_ok s -> search_residual (engine_search Gen.Unicode.U meta_table) ->
   get_citations_closed this_year s ra = Ok l ->
   Forall (offsets_ok s) l.
-Proof. exact closed_offsets'. Qed.
+Proof. exact closed_offsets''. Qed.
 Print Assumptions C02_closed_offsets.
+
+Theorem C02_engine_contract : search_residual (engine_search Gen.Unicode.U meta_table) ->
+  search_ok (engine_search Gen.Unicode.U meta_table).
+Proof. exact search_ok_of_residual. Qed.
+Print Assumptions C02_engine_contract.
+
+Theorem C02_engine_pin_at_start : forall p w m, fwd_pat p = true ->
+  engine_search Gen.Unicode.U meta_table p w = Some m ->
+  forall a b, gspan g_pin_cite (m_groups m) = Some (a, b) -> a = 0%nat.
+Proof. exact E_pin_at_start. Qed.
+Print Assumptions C02_engine_pin_at_start.
+
+Theorem C02_engine_short_antecedent : forall w m, engine_search Gen.Unicode.U meta_table PShortAnte w = Some m ->
+  exists a b, gspan g_antecedent (m_groups m) = Some (a, b).
+Proof. exact E_short_ante. Qed.
+Print Assumptions C02_engine_short_antecedent.
+
+Theorem C02_engine_post_short_total : forall w, engine_search Gen.Unicode.U meta_table PPostShort w <> None.
+Proof. exact E_post_short_total. Qed.
+Print Assumptions C02_engine_post_short_total.
 
 (* the reference-pattern matches computed by the engine satisfy the contract assumed of the oracle *)
 Theorem C02_refs_engine_ok : refs_ok refs_engine.
